@@ -200,7 +200,33 @@ func smtOfStr(fr *frame, x value) *Term {
 	return Op("str.++", SStr, ts...)
 }
 
+// opaqueAddr recognises the opaque rendering "0x~"+20 cells of a symbolic address.
+func opaqueAddr(v value) ([]value, bool) {
+	ss, ok := v.(*SymStr)
+	if !ok || len(ss.parts) != 2 || ss.parts[0].s != "0x~" || ss.parts[1].kind != "b" || len(ss.parts[1].cells) != 20 {
+		return nil, false
+	}
+	return ss.parts[1].cells, true
+}
+
 func eqStr(fr *frame, x, y value) value {
+	// Address.Hex() of a symbolic address against a concrete checksummed hex string:
+	// Hex is injective, so compare the address bytes (only a correctly
+	// checksummed string can be equal to a Hex() result)
+	for _, pair := range [][2]value{{x, y}, {y, x}} {
+		if cells, ok := opaqueAddr(pair[0]); ok {
+			if cs, ok := pair[1].(string); ok {
+				if len(cs) != 42 {
+					return false
+				}
+				b := fromHexLenient(cs)
+				if len(b) != 20 || eip55(b) != cs {
+					return false
+				}
+				return eqCells(fr, cells, bytesToCells(b))
+			}
+		}
+	}
 	px, py := strParts(x), strParts(y)
 	fixed := func(ps []strPart) bool {
 		for _, p := range ps {
